@@ -3,6 +3,7 @@
 //   --out FILE --scen "S" | --scenfile FILE [--first I]   scenarios (one per line in the file)
 //   --random N --seed S [--pct D] [--maxsteps M] [--notimeout] [--unfixed]
 // scenario:  mult=1;sets=ts.1.0,ctsL.4.0,ctsH.1.1;throws=2,5;d1=newpool2,new1,sched1.3,...;d2=...;b3=new2,...
+//   n=K              (K executions of this scenario instead of --random)
 //   hold=TpPushRing  (directed: d1 parks at its first point of that site until d2's first resize() has returned)
 //   sets: kind.stealingLoadMultiplier.parentCascade   (ts | ctsL = kLightweight | ctsH = kHeavy)
 //   dN = program of driver thread dN, bK = program run inside the body of task K
@@ -39,6 +40,7 @@ struct Scenario {
   std::map<int, std::vector<Op>> bodies;
   std::set<int> throws;
   int nk = 0, maxw = 0;
+  int runs = 0; // n=K: number of executions of this scenario (0 = --random)
   std::string hold; // directed scenarios: d1 is held at its first point of this site until d2's first resize returned
   std::string text;
 };
@@ -100,6 +102,8 @@ static Scenario parseScenario(const std::string& text) {
     std::string key = part.substr(0, eq), val = part.substr(eq + 1);
     if (key == "hold") {
       sc.hold = val;
+    } else if (key == "n") {
+      sc.runs = atoi(val.c_str());
     } else if (key == "mult") {
       sc.mult = atoi(val.c_str());
     } else if (key == "sets") {
@@ -439,7 +443,8 @@ int main(int argc, char** argv) {
   long long incomplete = 0;
   for (size_t si = first; si < scens.size(); ++si) {
     bool stop = false;
-    for (long long i = 0; i < n; ++i) {
+    long long cnt = scens[si].runs > 0 ? scens[si].runs : n;
+    for (long long i = 0; i < cnt; ++i) {
       ctl::RunOptions o;
       o.mode = ctl::RunOptions::Random;
       o.seed = seed * 1000003ULL + (uint64_t)si * 7919ULL + (uint64_t)i;
